@@ -10,6 +10,7 @@
 package vsim
 
 import (
+	"fmt"
 	"runtime/debug"
 	"sync"
 	"time"
@@ -17,6 +18,8 @@ import (
 )
 
 func stack() string { return string(debug.Stack()) }
+
+func fmtKey(k any) string { return fmt.Sprintf("%T:%v", k, k) }
 
 const (
 	stRunnable = iota
@@ -96,6 +99,7 @@ type Task struct {
 	interrupted bool  // Fair: pre-empted by a timer wake-up, resumes first with the rest of its quantum
 	qRemain     int64
 	stalled     bool // sleeping because of an injected sync-point stall
+	condWait    bool // parked in Cond.Wait
 	wokeAt      int64
 	MaxLate     int64 // largest lateness of a wake-up
 	MaxBusy     int64 // largest virtual time between a wake-up and the next Sleep call
@@ -1425,6 +1429,7 @@ func (g *WaitGroup) Wait() {
 
 type Pool struct {
 	New   func() any
+	real  sync.Pool // pass-through mode only (outside a world)
 	items []any
 	n     int
 	epoch uint64
@@ -1456,7 +1461,9 @@ func (p *Pool) enter(w *World) {
 func (p *Pool) Get() any {
 	w := W
 	var x any
-	if w != nil && !w.cur.abort {
+	if w == nil {
+		x = p.real.Get()
+	} else if !w.cur.abort {
 		p.enter(w)
 		w.syncPoint(-5)
 		x = p.take(w)
@@ -1522,7 +1529,13 @@ func (p *Pool) take(w *World) any {
 //go:norace
 func (p *Pool) Put(x any) {
 	w := W
-	if w == nil || x == nil || w.cur.abort {
+	if w == nil {
+		if x != nil {
+			p.real.Put(x)
+		}
+		return
+	}
+	if x == nil || w.cur.abort {
 		return
 	}
 	p.enter(w)
@@ -1729,4 +1742,142 @@ func PoolHitCount() int64 {
 		return 0
 	}
 	return W.St.PoolHits
+}
+
+// ---- Cond and Map, for edited trees that introduce them ----
+
+// Cond mirrors sync.Cond on top of the simulated Mutex.
+type Cond struct {
+	L       sync.Locker
+	waiters []*Task
+	nwait   int
+}
+
+func NewCond(l sync.Locker) *Cond { return &Cond{L: l} }
+
+func (c *Cond) Wait() {
+	if world() == nil {
+		panic("vsim.Cond used outside a simulated world")
+	}
+	c.enqueue()
+	c.L.Unlock()
+	c.block()
+	c.L.Lock()
+}
+
+//go:norace
+func (c *Cond) enqueue() {
+	w := W
+	t := w.cur
+	if t.abort {
+		return
+	}
+	if c.nwait == len(c.waiters) {
+		n := make([]*Task, 2*len(c.waiters)+4)
+		for i := 0; i < c.nwait; i++ {
+			n[i] = c.waiters[i]
+		}
+		c.waiters = n
+	}
+	c.waiters[c.nwait] = t
+	c.nwait++
+	t.condWait = true
+}
+
+//go:norace
+func (c *Cond) block() {
+	w := W
+	t := w.cur
+	if t.abort {
+		return
+	}
+	for t.condWait {
+		t.state = stBlocked
+		w.yield(t, -11)
+	}
+	raceAcquire(unsafe.Pointer(c))
+}
+
+//go:norace
+func (c *Cond) wake(n int) {
+	w := W
+	if w == nil || w.cur.abort {
+		return
+	}
+	raceReleaseMerge(unsafe.Pointer(c))
+	k := 0
+	for i := 0; i < c.nwait && k < n; i++ {
+		x := c.waiters[i]
+		if x != nil && x.condWait {
+			x.condWait = false
+			if x.state == stBlocked {
+				x.state = stRunnable
+				x.readyAt = w.Steps
+			}
+			c.waiters[i] = nil
+			k++
+		}
+	}
+	// compact
+	j := 0
+	for i := 0; i < c.nwait; i++ {
+		if c.waiters[i] != nil {
+			c.waiters[j] = c.waiters[i]
+			j++
+		}
+	}
+	for i := j; i < c.nwait; i++ {
+		c.waiters[i] = nil
+	}
+	c.nwait = j
+	w.syncPoint(-4)
+}
+
+func (c *Cond) Signal()    { c.wake(1) }
+func (c *Cond) Broadcast() { c.wake(1 << 30) }
+
+// Map is sync.Map with a sync point at every operation and a deterministic Range order.
+// The real sync.Map underneath is never contended (one task runs at a time) and gives the
+// race detector the edges the real type gives.
+type Map struct{ m sync.Map }
+
+//go:norace
+func mapSync() {
+	if w := W; w != nil && !w.cur.abort {
+		w.syncPoint(-12)
+	}
+}
+
+func (m *Map) Load(k any) (any, bool)           { mapSync(); return m.m.Load(k) }
+func (m *Map) Store(k, v any)                   { mapSync(); m.m.Store(k, v) }
+func (m *Map) LoadOrStore(k, v any) (any, bool) { mapSync(); return m.m.LoadOrStore(k, v) }
+func (m *Map) LoadAndDelete(k any) (any, bool)  { mapSync(); return m.m.LoadAndDelete(k) }
+func (m *Map) Delete(k any)                     { mapSync(); m.m.Delete(k) }
+func (m *Map) Swap(k, v any) (any, bool)        { mapSync(); return m.m.Swap(k, v) }
+func (m *Map) CompareAndSwap(k, o, n any) bool  { mapSync(); return m.m.CompareAndSwap(k, o, n) }
+func (m *Map) CompareAndDelete(k, o any) bool   { mapSync(); return m.m.CompareAndDelete(k, o) }
+func (m *Map) Clear()                           { mapSync(); m.m.Clear() }
+
+// Range visits the entries in the order of their keys' printed form (sync.Map's own order is random).
+func (m *Map) Range(f func(k, v any) bool) {
+	mapSync()
+	type kv struct {
+		s    string
+		k, v any
+	}
+	var all []kv
+	m.m.Range(func(k, v any) bool {
+		all = append(all, kv{fmtKey(k), k, v})
+		return true
+	})
+	for i := 1; i < len(all); i++ {
+		for j := i; j > 0 && all[j].s < all[j-1].s; j-- {
+			all[j], all[j-1] = all[j-1], all[j]
+		}
+	}
+	for _, e := range all {
+		if !f(e.k, e.v) {
+			return
+		}
+	}
 }
